@@ -10,6 +10,7 @@ import (
 	"os"
 	"runtime/debug"
 	"strconv"
+	"time"
 
 	"modeltest/lib"
 	simrt "modeltest/zz_simrt"
@@ -74,6 +75,14 @@ func call(o op) int {
 		return lib.WorkerPool(o.arg)
 	case 13:
 		return lib.Zoo(o.arg)
+	case 14:
+		return lib.SleepOrder(o.arg%4 + 1)
+	case 15:
+		return lib.TickerCount(o.arg)
+	case 16:
+		return lib.WithTimeout(o.arg)
+	case 17:
+		return lib.AfterFuncOnce(o.arg)
 	// defective
 	case 20:
 		return lib.RacyCounter()
@@ -89,6 +98,8 @@ func call(o op) int {
 		return lib.FirstError([]int{3, -1, 4, -2, 5, -3})
 	case 26:
 		return lib.FoundOrDone(o.arg)
+	case 27:
+		return lib.ExpiringSquare(o.arg)
 	}
 	panic("bad fn")
 }
@@ -119,6 +130,16 @@ func want(fn, arg int) int {
 		return sumSq(arg)
 	case 13:
 		return zooWant[arg]
+	case 14:
+		return []int{1, 12, 123, 1234}[arg%4]
+	case 15:
+		return arg
+	case 16:
+		return arg * (arg + 1) / 2
+	case 17:
+		return arg * 2
+	case 27:
+		return arg * arg
 	case 26:
 		return 1
 	case 20:
@@ -183,7 +204,7 @@ func main() {
 			for j := 0; j < k; j++ {
 				var o op
 				if mode == "ok" {
-					o.fn = r.n(14)
+					o.fn = r.n(18)
 					o.arg = 1 + r.n(7)
 				} else {
 					o.fn = *name
@@ -202,7 +223,13 @@ func main() {
 			got[t] = make([]int, len(plan[t]))
 		}
 		done := make(chan struct{}, nt)
-		res := simrt.Run(nt, nops, policy(r, nt, r.next()), func(id int) {
+		pol := policy(r, nt, r.next())
+		if mode != "ok" && r.n(2) == 0 {
+			// clock-jump faults (as the harness of the real check injects them)
+			pol.ClockSteps = []int64{int64(1 + r.n(40)), int64(41 + r.n(80))}
+			pol.ClockDeltas = []int64{int64(61 * time.Second), int64(31 * time.Second)}
+		}
+		res := simrt.Run(nt, nops, pol, func(id int) {
 			base := 0
 			for t := 0; t < id; t++ {
 				base += len(plan[t])
